@@ -16,6 +16,10 @@ def load_known():
         return json.load(f)
 
 
+import re as _re
+_FKEY = _re.compile(r"distance3d(?:\.\w+)*::[\w.<>]+")
+
+
 class Report:
     """Collects the rule instances (obligations) examined by one property check."""
 
@@ -54,9 +58,35 @@ class Report:
             self.bad(rule, key, where, detail_bad)
         return cond
 
+    # ------------------------------------------------------------------ property scope
+    def set_scope(self, funcs):
+        """funcs: {function key} reachable from the property's entry points (sa/props/scopes.py).  Instances keyed by a function
+        outside this set are not obligations of this property and are dropped (counted in extra['out_of_scope_dropped'])."""
+        self.scope = set(funcs)
+        self._scope_prefixes = set()
+        for k in self.scope:
+            mod, _, q = k.partition("::")
+            parts = q.split(".")
+            for i in range(1, len(parts)):
+                self._scope_prefixes.add(mod + "::" + ".".join(parts[:i]))
+        self.extra["scope_functions"] = len(self.scope)
+        self.extra["out_of_scope_dropped"] = 0
+
+    def in_scope(self, key):
+        if getattr(self, "scope", None) is None:
+            return True
+        m = _FKEY.search(key)
+        if not m:
+            return True
+        fk = m.group(0)
+        return fk in self.scope or fk in self._scope_prefixes or fk.split(".<locals>")[0] in self.scope
+
     def _add(self, rule, key, where, verdict, detail):
         if rule not in self.rules:
             self.rule(rule, rule)
+        if not self.in_scope(key):
+            self.extra["out_of_scope_dropped"] += 1
+            return
         r = self.rules[rule]
         r["count"] += 1
         r[{"OK": "ok", "BAD": "bad", "UNKNOWN": "unknown"}[verdict]] += 1
